@@ -125,6 +125,13 @@ class G:
                     return self.block(rest, var, cur, ind)
                 return f"{pad}let {s.targets[0].id} := {v}\n" + self.block(rest, var, cur, ind)
             if isinstance(s, ast.Expr) and isinstance(s.value, ast.Call): return self.block(rest, var, cur, ind)
+            # a cache slot filled in: `self.<slot> = <a value named by a const atom>`, the slot itself being an optional atom — from here on
+            # the slot holds that value
+            if isinstance(s, ast.Assign) and len(s.targets) == 1 and isinstance(s.targets[0], ast.Attribute):
+                slot = self.atoms.get(ast.unparse(s.targets[0])); v = self.atoms.get(ast.unparse(s.value))
+                if slot and slot[1] == "opt" and v and v[1] == "const":
+                    self.used.update([ast.unparse(s.targets[0]), ast.unparse(s.value)])
+                    return f"{pad}let {slot[0]} : LK.Py.V := (some ({v[0]}))\n" + self.block(rest, var, cur, ind)
             raise Unsupported("statement: " + ast.unparse(s)[:60])
         if self.stores(s, var): raise Unsupported(f"`{var}` assigned inside `{type(s).__name__}` at line {s.lineno}")
         return self.block(rest, var, cur, ind)
@@ -388,6 +395,13 @@ SITES["C16"] = [
          atoms={"missing == 'error'": ("missingIsError", B), "np.any(self._numbers.numpy() < 0)": ("anyUnknown", B)}),
     dict(file="data/items.py", cls="ItemList", fn="numbers", mode="branch", select="self._numbers is None", lean="numbersCacheBranch",
          atoms={"self._numbers": ("cached", O), "self._vocab": ("vocab", O)}),
+]
+
+# `ranks()`: an unordered list has no ranks — whatever is cached; an ordered one returns the stored ranks, computing 1…n when none are stored
+SITES["C16"] += [
+    dict(file="data/items.py", cls="ItemList", fn="ranks", mode="fn", lean="ranksDispatch",
+         atoms={"self.ordered": ("ordered", B), "self._ranks": ("stored", O), "self._ranks.to(format)": ("stored", "local"),
+                "MTArray(np.arange(1, self._len + 1, dtype=np.int32))": ("0", "const")}),
 ]
 
 # the copy constructor's bookkeeping: which of the slots copied from the source (`_ids`, `_numbers`, `_ranks`) survive an override
